@@ -50,4 +50,8 @@ Next == Evaluate
 Spec == Init /\ [][Next]_vars
 InvOrder == c.kind = "vec" => OrderLemmas(c.v)
 InvWindow == c.kind = "win" => WindowLemmas(c.w.grid, c.w.h)
+\* ---- witnesses against vacuity (tools/vacuity.py): each is the NEGATION of a lemma's antecedent and must be VIOLATED by some enumerated case ----
+W_IncreasingGrid == ~(c.kind = "win" /\ IncreasingGrid(c.w.grid) /\ Len(c.w.grid) >= 3)
+W_PermutedGrid == ~(c.kind = "win" /\ ~IncreasingGrid(c.w.grid))
+W_NoMissing == ~(c.kind = "vec" /\ Len(c.v) >= 2 /\ ~HasNaN(c.v))
 =============================================================================
